@@ -276,7 +276,55 @@ def run_case(case, only_a=None):
             "outcome": "row:" + ("ok" if not fails else "FAIL"), "fails": fails}
 
 
+# ---------------------------------------------------------------- acknowledge_until() with zoned values around a repeated hour
+FOLD_WALLS = ((2, 10, 1), (2, 50, 0), (2, 20, 0), (2, 40, 1), (1, 59, 0), (3, 1, 0))  # (hour, minute, second occurrence?)
+
+
+def run_manual(case):
+    """('m', provider, trigger occurrence 0/1, ack wall index, zone form of the acknowledgement): the trigger lies in the
+    repeated hour of 2024-10-27 (Europe/Berlin); the component acknowledgement is given through Alarms.acknowledge_until()
+    in the SAME zone (the same tzinfo object where the library has one), in UTC or in another zone: instants decide."""
+    _, provider, tocc, ai, form = case
+    env.use_provider(provider)
+    fails = []
+
+    def local(h, m, second):
+        w = datetime(2024, 10, 27, h, m)
+        if provider == "pytz":
+            return tzp.timezone(LOCAL_ZONE).localize(w, is_dst=not second)
+        return w.replace(tzinfo=tzp.timezone(LOCAL_ZONE), fold=1 if second else 0)
+    trig = local(2, 30, bool(tocc))
+    h, m, second = FOLD_WALLS[ai]
+    ack = local(h, m, bool(second))
+    ack_instant = ack.astimezone(UTC)
+    if form == "utc":
+        ack = ack_instant
+    elif form == "other-zone":
+        ack = ack_instant.astimezone(tzp.timezone("America/New_York"))
+    comp = Event()
+    comp.add("uid", "m")
+    comp.start = trig
+    al = Alarm()
+    al.add("action", "DISPLAY")
+    al.TRIGGER = timedelta(0)
+    comp.add_component(al)
+    want = trig.astimezone(UTC) > ack_instant
+    try:
+        alarms = Alarms(comp)
+        alarms.acknowledge_until(ack)
+        got = alarms.times[0].is_active()
+        got_list = len(alarms.active) == 1
+    except Exception as e:  # noqa: BLE001
+        got = got_list = f"{type(e).__name__}: {e}"
+    if got is not want or got_list is not want:
+        fails.append(fail("acknowledge_until-zoned-value-around-a-repeated-hour", case, want, (got, got_list), 0))
+    return {"state": ("manual", provider, tocc, ai, form, repr(got)), "trans": 3, "nontrivial": True,
+            "outcome": "manual-ok" if not fails else "FAIL", "fails": fails}
+
+
 def replay(case):
+    if case[0] == "m":
+        return run_manual(case[:5])
     return run_case(case[:9], case[9] if len(case) > 9 else None)
 
 
@@ -305,3 +353,12 @@ def run(ctx):
                                     yield ("r", provider, path, kind, local, "tb", c_i, s_i, nal)
 
     ctx.explore("decision-table rows", gen, run_case)
+
+    def gen_manual():
+        for provider in env.PROVIDERS:
+            for tocc in (0,):  # a start in the SECOND occurrence loses its fold in Python's own date arithmetic (C14's "plus")
+                for ai in range(len(FOLD_WALLS)):
+                    for form in ("same-zone", "utc", "other-zone"):
+                        yield ("m", provider, tocc, ai, form)
+
+    ctx.explore("acknowledge_until around a repeated hour", gen_manual, run_manual)
